@@ -212,4 +212,4 @@ pub mod benches {
 
 #[cfg(kani)]
 #[path = "/verif/units/kani/beatree_ops.rs"]
-mod verif_kani;
+pub(crate) mod verif_kani;
